@@ -243,7 +243,33 @@ fn supported(cmd: &str, ctype: &str, c: &str, reduced: bool) -> bool {
 
 // ---------------------------------------------------------------------------------------------
 
+/// the second enumerated block: for a few fixed command lines, an internal panic at EVERY ordinal of
+/// both kinds of fault point (n-th start of a parallel task, n-th lock acquisition: the lock is then
+/// poisoned for everybody else) up to a bound beyond the number of such points of these commands
+const PANIC_ENUM_CMDS: &[(&str, &str, &str, &str, bool)] = &[("kh", "3_1", "Z", "0", false), ("ckh", "L2a1", "F2", "1", false), ("kh", "4_1", "Q", "H", true), ("kh", "6_1", "F3", "0,1", false), ("kh", "L4a1", "Z", "1", true)];
+const PANIC_ENUM_ORDINALS: u64 = 120;
+
+fn disk_enum_total() -> u64 {
+    ENUM_FILES.iter().map(|f| fault_space(std::fs::read(resource_path(f)).map(|b| b.len() as u64).unwrap_or(0))).sum()
+}
+
+fn enumerated_panic(idx: u64) -> Option<(usize, &'static str, u64)> {
+    let k = idx.checked_sub(disk_enum_total())?;
+    let per_cmd = 2 * PANIC_ENUM_ORDINALS;
+    let ci = (k / per_cmd) as usize;
+    if ci >= PANIC_ENUM_CMDS.len() { return None; }
+    let r = k % per_cmd;
+    Some((ci, if r < PANIC_ENUM_ORDINALS { "par.task_start" } else { "lock.held" }, r % PANIC_ENUM_ORDINALS))
+}
+
 fn gen_case_inner(rng: &mut Rng, idx: u64) -> Value {
+    if let Some((ci, site, nth)) = enumerated_panic(idx) {
+        let (cmd, name, ctype, c, reduced) = PANIC_ENUM_CMDS[ci];
+        let mut argv: Vec<String> = ["ykh", cmd, name, "-t", ctype, "-c", c].iter().map(|s| s.to_string()).collect();
+        if reduced { argv.push("-r".into()); }
+        return json!({ "argv": argv, "cmd": cmd, "ctype": ctype, "c": c, "mirror": false, "reduced": reduced, "link_kind": "name",
+            "files": {}, "disk_faults": [], "panic_faults": [[site, nth]], "panic_enum": true });
+    }
     // the first runs sweep the disk-fault space of one stored file completely (fault_enumeration)
     let enum_plan = enumerated_fault(idx);
     let cmd = if rng.chance(2, 3) { "kh" } else { "ckh" };
@@ -411,14 +437,14 @@ impl Check for C20 {
     fn id(&self) -> &'static str { "C20" }
     fn level(&self) -> &'static str { "fault_enumeration" }
     fn rule(&self) -> String {
-        "one run = one command line {kh,ckh} x -t {Z,Q,F2,F3,(default),Gauss} x -c {0,1,2,3,'1,1','0,1',H,'0,T','H,T',garbage} x -m x -r x link {table name (file read on the simulated disk), PD JSON, path on the simulated disk, unknown name, malformed / unpaired PD text}, executed in-process through App::verif_run on the simulated substrate (workers, schedule, hash seeds drawn). Faults: the first runs ENUMERATE the disk-fault space of two stored files completely (ENOENT, EACCES, EIO, EINTR-then-ok, empty, short read at every byte offset, flip of every bit, invalid UTF-8 at every offset, six kinds of trailing bytes, torn rewrite with every other stored diagram); later runs sample it for other files and inject panics at the n-th task start / n-th lock acquisition (lock held => poisoning). Oracle: supported combination on a valid diagram (judged by an own PD reader on the bytes actually delivered) => Ok and the parsed table has exactly the non-zero cells of the library's own answer computed in a fault-free twin execution, with equal rank and torsion; otherwise => Err. distinct = distinct event-log digests; non-trivial = a fault fired or the command reached the computation".into()
+        "one run = one command line {kh,ckh} x -t {Z,Q,F2,F3,(default),Gauss} x -c {0,1,2,3,'1,1','0,1',H,'0,T','H,T',garbage} x -m x -r x link {table name (file read on the simulated disk), PD JSON, path on the simulated disk, unknown name, malformed / unpaired PD text}, executed in-process through App::verif_run on the simulated substrate (workers, schedule, hash seeds drawn). Faults: the first runs ENUMERATE the disk-fault space of two stored files completely (ENOENT, EACCES, EIO, EINTR-then-ok, empty, short read at every byte offset, flip of every bit, invalid UTF-8 at every offset, six kinds of trailing bytes, torn rewrite with every other stored diagram); the next 1200 runs ENUMERATE an injected internal panic at every ordinal 0..119 (these commands reach at most 70 such points) of both fault-point kinds (n-th task start, n-th lock acquisition = lock held => poisoning) for five fixed command lines; later runs sample disk faults for other files and panic ordinals for other command lines. Oracle: supported combination on a valid diagram (judged by an own PD reader on the bytes actually delivered) => Ok and the parsed table has exactly the non-zero cells of the library's own answer computed in a fault-free twin execution, with equal rank and torsion; otherwise => Err. distinct = distinct event-log digests; non-trivial = a fault fired or the command reached the computation".into()
     }
     fn assumptions(&self) -> Vec<String> {
         vec![
             "main()'s mapping Ok -> print + exit 0 / Err -> message + exit 1 (three lines) is trusted; the real process boundary (stdout errors, clap usage exit codes, allocation failure) is outside the simulator".into(),
             "PD texts whose labels pair up but whose under-strand directions are inconsistent are not judged (neither outcome is demanded)".into(),
             "ckh is judged by the per-q Euler characteristic of the printed generator table (graded parameters) or its total Euler characteristic (numeric non-zero parameters), because the simplified complex itself is path dependent".into(),
-            "injected panics are sampled by ordinal, not enumerated over every reachable fault point".into(),
+            "injected panics: every ordinal 0..119 of both fault-point kinds is enumerated for five fixed command lines (each under one drawn schedule); for all other command lines the ordinal is sampled".into(),
         ]
     }
     fn required_probes(&self) -> Vec<&'static str> {
@@ -443,6 +469,10 @@ impl Check for C20 {
             *rep.counters.entry(k).or_insert(0) += 1;
         }
         let injected = st.faults_fired.iter().any(|f| f.starts_with("panic@"));
+        if case.get("panic_enum").is_some() {
+            rep.counters.insert("panic_ordinals_enumerated".into(), 1);
+            rep.counters.insert(if injected { "panic_ordinals_enumerated_fired" } else { "panic_ordinals_enumerated_beyond_last_point" }.into(), 1);
+        }
         let (cmd, ctype, c) = (case["cmd"].as_str().unwrap(), case["ctype"].as_str().unwrap(), case["c"].as_str().unwrap());
         let (mirror, reduced) = (case["mirror"].as_bool().unwrap(), case["reduced"].as_bool().unwrap());
         let got = match res {
